@@ -8,11 +8,17 @@ CASE_TYPE = "tcase"
 DRIVER_PKG = "cmd/verif_c08"
 SHARD = 60
 
+# order = all_variants in Check/C08Check.v.  The in-batch duplicate flag (finding F02a of C01/C02 when pinned) changes
+# feed positions and hence tokens, but never makes the C08 spec fail: no C08 finding is attached to it.
 VARIANTS = [
-    {"name": "current(EqLen,FsKeep)", "findings": ["F08a", "F08b"]},
-    {"name": "EqFull,FsKeep", "findings": ["F08b"]},
-    {"name": "EqLen,FsReset", "findings": ["F08a"]},
-    {"name": "fixed(EqFull,FsReset)", "findings": []},
+    {"name": "current(EqLen,FsKeep,DupStoredAndLocal)", "findings": ["F08a", "F08b"]},
+    {"name": "EqFull,FsKeep,DupStoredAndLocal", "findings": ["F08b"]},
+    {"name": "EqLen,FsReset,DupStoredAndLocal", "findings": ["F08a"]},
+    {"name": "EqFull,FsReset,DupStoredAndLocal", "findings": []},
+    {"name": "EqLen,FsKeep,DupLocalElseStored", "findings": ["F08a", "F08b"]},
+    {"name": "EqFull,FsKeep,DupLocalElseStored", "findings": ["F08b"]},
+    {"name": "EqLen,FsReset,DupLocalElseStored", "findings": ["F08a"]},
+    {"name": "fixed(EqFull,FsReset,DupLocalElseStored)", "findings": []},
 ]
 RULE = ("cases = (source kind: DatasetSource / UnionDatasetSource with 1-3 members, LatestOnly per member, batch size 1..5, "
         "history of source batches (re-writes of the same id, deletes, un-deletes, equal-JSON-length pairs), foreign writes to the "
@@ -71,6 +77,9 @@ def witness_cases():
         mk([W(0, [(1, 1, 0, 0), (2, 1, 0, 0)]), W(0, [(1, 2, 0, 0)]), R(), R(True, "sinkfail", 1), R()], batch=2),
         mk([W(0, [(1, 1, 0, 0)]), W(1, [(11, 1, 0, 0)]), W(1, [(11, 2, 0, 0)]), R(), R(True, "sinkpanic", 1), R()],
            batch=1, los=(False, False), union=True),
+        # in-batch repeats (source and sink side): tells the two duplicate rules apart through feed positions / tokens
+        mk([W(0, [(2, 13, 0, 1), (1, 2, 0, 0), (1, 2, 0, 0)]), R(), W(0, [(1, 2, 0, 0), (1, 3, 0, 0), (1, 3, 0, 0)]),
+            R(False, "kill", 0), R(), R()], batch=2),
         # plain behaviour: death between sink write and token store, then recovery and a no-op run
         mk([W(0, [(1, 1, 0, 0), (2, 2, 0, 0), (3, 3, 0, 0)]), R(), W(0, [(1, 4, 0, 0)]), R(False, "diebefore", 0), R(), R()]),
         mk([W(0, [(1, 1, 0, 0), (2, 2, 0, 0), (3, 3, 0, 0)]), W(1, [(11, 1, 0, 0), (12, 2, 0, 0), (11, 3, 0, 0)]),
